@@ -48,8 +48,30 @@ def enc_block(region, shape, spacing, adjust):
     return f"{C.enc(region)} {C.enc(None if shape is None else list(shape))} {C.enc(sp)} {adjust}"
 
 
+def size_tie(es, ns, region, spacing):
+    """True if a spacing -> number-of-blocks rounding sits on a .5 tie that float and exact arithmetic may resolve differently."""
+    from fractions import Fraction as F
+    if spacing is None:
+        return False
+    box = region if region is not None else (min(es), max(es), min(ns), max(ns))
+    sp = [float(v) for v in np.atleast_1d(spacing)]
+    if len(sp) == 1:
+        sp = [sp[0], sp[0]]
+    for lo, hi, s in ((box[0], box[1], sp[1]), (box[2], box[3], sp[0])):
+        if s <= 0:
+            continue
+        q = (C.fq(hi) - C.fq(lo)) / C.fq(s)
+        fr = q - (q.numerator // q.denominator)
+        if abs(fr - F(1, 2)) <= F(1, 10**9) * max(1, abs(q)) and C.fq((float(hi) - float(lo)) / float(s)) != q:
+            return True
+    return False
+
+
 def near_tie(es, ns, region, shape, spacing, adjust):
-    """True if some point is (almost) equidistant from its two nearest block centres."""
+    """True if the block layout is ambiguous between float and exact arithmetic: a point (almost) equidistant from its two
+    nearest block centres, or a spacing -> size rounding tie."""
+    if size_tie(es, ns, region, spacing):
+        return True
     try:
         (be, bn), _ = vd.block_split((np.array(es), np.array(ns)), spacing=spacing, shape=shape, adjust=adjust, region=region)
     except Exception:  # noqa: BLE001
